@@ -177,3 +177,6 @@ def run(col, configs, tier):
         guarded(col, rule_mixed, facts)
         guarded(col, rule_mask_shift, facts)
         guarded(col, rule_flag_polarity, facts)
+        from rules import c15
+        guarded(col, c15.rule_parse_specials, facts)
+        guarded(col, c15.rule_write_specials, facts)
